@@ -32,7 +32,8 @@ PROP = dict(
                  "Store() sources are rows of a field no client writes (Store reads the source and writes the target in two lock acquisitions)",
                  "rows() is used with a column filter (without one it also reports rows whose containers were emptied: C16's subject)",
                  "while D28 is open the int field's bit depth is grown to the pool's maximum before the clients start; while DC5 is open the "
-                 "results of Row(v == x) are not constrained (Field.Value reads are)"],
+                 "results of Row(v == x) are not constrained (Field.Value reads are); while DC6 is open the counts of top(ids) on mutex/bool "
+                 "fragments are not constrained"],
     tags=["gc"],
     units=[
         U("frag", ".", "^TestVerifC29_Fragment$", 160, 6000, sq=4, sth=14, race=True,
